@@ -234,3 +234,10 @@ def run(ck):
     # a second adapt_io() of an fd that fails (EEXIST) must not delete the registration of the adapter that owns it: its
     # suspended task would never be woken (the registered flag is set only after the poller accepted the fd: C15.4)
     common.import_results(ck, C15, "4", "IoLoopInner", "2")
+    # ---- shared clauses demonstrated by seeding round 7 (the property broken from a distant module) --------------
+    from props import common as _c7
+    import importlib as _il
+    _m = lambda n: _il.import_module('props.' + n)
+    _c7.import_results(ck, _m("C01"), "4", None, "4")  # the adapter's slot is not aliased by a stale token
+    _c7.import_results(ck, _m("C20"), "4", "increment_version", "4")
+
